@@ -3,7 +3,9 @@ classes defined here are resolvable through sys.modules['vt.harness.excat'])."""
 import dataclasses
 import datetime
 import decimal
+import sys
 import threading
+import types
 
 
 class ModErr(Exception):
@@ -128,6 +130,21 @@ Dyn = type("Dyn", (RuntimeError,), {"__module__": __name__})            # resolv
 DynHidden = type("DynHidden", (RuntimeError,), {"__module__": "nowhere.module"})  # module not loaded
 DynNoModule = type("DynNoModule", (Exception,), {"__module__": None})              # a class that has no module at all
 DynShadow = type("ModErr", (LookupError,), {"__module__": __name__})      # name resolves to a different class
+
+
+class _CustomisedModule(types.ModuleType):
+    """a fully imported module whose class was customised (the documented `sys.modules[__name__].__class__ = MyModule` idiom, here with
+    a property): an ordinary, loaded module for every purpose"""
+
+    @property
+    def api_version(self):
+        return "1.0"
+
+
+_custom_mod = _CustomisedModule("vt_customised_mod")
+sys.modules["vt_customised_mod"] = _custom_mod
+CustomModErr = type("CustomModErr", (LookupError,), {"__module__": "vt_customised_mod"})
+_custom_mod.CustomModErr = CustomModErr
 
 
 class BadRepr:
